@@ -40,6 +40,17 @@ class Spy:
             setattr(target, name, wrapper)
 
 
+def sympy_srepr_defs(op):
+    """Definition matrix of the (innermost) custom gate of an operation, as text; None for built-in gates."""
+    import sympy
+
+    g = getattr(op, "gate", None)
+    while g is not None and hasattr(g, "wrapped_gate"):
+        g = g.wrapped_gate
+    d = getattr(getattr(g, "matrix_factory", None), "gate_definition", None)
+    return None if d is None else (d.gate_name, [sympy.srepr(e) for e in d.matrix], [str(p_) for p_ in d.params_ordering])
+
+
 class World:
     PID = PID
     WATCHDOG_S = 120  # a run of this world takes well under a second; beyond this it is a hang
@@ -100,8 +111,10 @@ class World:
                 nn = r.choice([n, n, max(1, n - 1)])
                 circs.append({"kind": "basis", "c": gen.basis_circuit([r.randint(0, 1) for _ in range(nn)])})
             elif k < 0.75:
-                circs.append({"kind": "rand", "c": gen.rand_circuit(r, n, r.randint(1, 8), wrappers=0.2, powexp=False, custom=0.05,
+                circs.append({"kind": "rand", "c": gen.rand_circuit(r, n, r.randint(1, 8), wrappers=0.2, powexp=False, custom=r.choice([0.05, 0.05, 0.4]),
                                                                     exclude=["U3", "MyNonUnitary"], phase_ops=0.15, max_arity=3)})
+                if r.random() < 0.3:
+                    circs[-1]["c"]["cv"] = 1   # the same custom gate NAMES with other definitions (stored per circuit)
             elif k < 0.87:
                 circs.append({"kind": "empty", "c": {"ops": [], "n": r.randint(1, n)}})
             elif k < 0.97:
@@ -372,6 +385,14 @@ class World:
             for (ent, meas), rec in zip(pairs, recs[len(recs) - k:]):
                 want_circ = json.loads(json.dumps(to_dict(ent["c"])))
                 ctx.check(rec.get("circuit") == want_circ, "record-mismatch", "circuit", f"recorded circuit {rec.get('circuit')} != {want_circ}")
+                # ... and independently of how the serialiser arrives at its dictionaries: the record must READ BACK as
+                # the circuit that ran (gate kinds, parameters, qubits, custom definitions)
+                from orquestra.quantum.circuits import circuit_from_dict
+                back = circuit_from_dict(rec.get("circuit"))
+                ctx.check(back == ent["c"] and back.n_qubits == ent["c"].n_qubits
+                          and [sympy_srepr_defs(o) for o in back.operations] == [sympy_srepr_defs(o) for o in ent["c"].operations],
+                          "record-mismatch", "circuit-reads-back-differently",
+                          f"the recorded circuit deserialises to {back!r}, the circuit that ran is {ent['c']!r}")
                 ctx.check(rec.get("device") == type(R["inner"]["obj"]).__name__, "record-mismatch", "device", f"device {rec.get('device')!r}")
                 ctx.check(rec.get("number_of_gates") == len(ent["c"].operations), "record-mismatch", "number_of_gates", f"{rec.get('number_of_gates')}")
                 if dist is None:
